@@ -37,7 +37,8 @@ THEOREMS = [NS + t for t in [
     "C11_expand", "C11_delivered", "C11_load_eq_expand", "C11_cut", "C11_split", "expand_single", "C11_empty", "C11_empty_load",
     "C11_order_sorted", "C11_order_in_place", "C11_dotfile", "C11_dotfile_in_path", "C11_wildcard_no_separator",
     "C11_dotfile_fake", "C11_terminates", "C11_terminates_load", "C11_cycle", "C11_self_include", "canonFake_idem",
-    "C11_fake_load_eq_expand", "C11_fake_terminates", "expand_mono"]]
+    "C11_fake_load_eq_expand", "C11_fake_terminates", "expand_mono", "C11_terminates_canon", "resolveReal_fixed",
+    "prodCanon_idem", "C11_prod_load_eq_expand", "C11_split_fake_prod", "C11_prod_terminates"]]
 
 BASE = "/verif/work/C11/fs/"
 
@@ -162,11 +163,11 @@ class Cutter:
             self.files[self.path(dir_comps + ["p%d-a.ledger.bak" % k])] = "not a ledger\n"
             self.files[self.path(dir_comps + [".p%d-a.ledger" % k])] = "not a ledger either\n"
         elif mode == "globq":
-            names = ["q%d%s.ledger" % (k, s) for s in ["1", "2", "3"]][:npieces]
-            pattern = "q%d?.ledger" % k
+            names = ["q%d_%s.ledger" % (k, s) for s in ["1", "2", "3"]][:npieces]
+            pattern = "q%d_?.ledger" % k
             sub = []
-            self.files[self.path(dir_comps + ["q%d12.ledger" % k])] = "too long for the question mark\n"
-            self.files[self.path(dir_comps + ["q%d.ledger" % k])] = "too short for the question mark\n"
+            self.files[self.path(dir_comps + ["q%d_12.ledger" % k])] = "too long for the question mark\n"
+            self.files[self.path(dir_comps + ["q%d_.ledger" % k])] = "too short for the question mark\n"
         elif mode == "globsub":
             # leading wildcard inside a dedicated directory, with dot-file decoys that a wildcard must not match
             sub = ["g%d" % k]
